@@ -257,10 +257,10 @@ def check(index, ctx):
                 ctx.undecided("K", key, "path not fully typed: " + "; ".join(f"{e['loc']} {e.get('why', '')}" for e in unk[:3]), cls.loc())
                 continue
             ops = sops(r)
-            cd = [e for e in ops if e["sop"] == "cdist"]
+            cd = list({e["id"]: e for e in ops if e["sop"] == "cdist"}.values())  # (a store executed in a loop is re-evaluated by the fixpoint iteration: one id, several events)
             if len(cd) == 0:
-                ctx.undecided("K", "Krum: pairwise distances", "no value recognised as the matrix of pairwise distances between the rows (torch.cdist(matrix, matrix) or F.pairwise_distance of the "
-                              "broadcast rows)", cls.loc())
+                ctx.undecided("K", "Krum: pairwise distances", "no value recognised as the matrix of pairwise distances between the rows (torch.cdist(matrix, matrix), F.pairwise_distance of the "
+                              "broadcast rows, or `buf[i] = vector_norm(matrix - row)` for every (i, row) of enumerate(matrix))", cls.loc())
                 continue
             if len(cd) != 1:
                 ctx.violated("K", "Krum: pairwise distances", f"expected one cdist(matrix, matrix), found {len(cd)}", cls.loc())
